@@ -541,7 +541,10 @@ func (rt resultGrouped) Extract(cw containerWriter, decorated bool, v reflect.Va
 	}
 
 	if decorated {
-		cw.submitDecoratedGroupedValue(rt.Group, rt.Type, v)
+		// Like every other group lookup, a decorated group is keyed by its
+		// element type: the decorator and its consumers may declare
+		// different slice types for the same elements.
+		cw.submitDecoratedGroupedValue(rt.Group, rt.Type.Elem(), v)
 		return
 	}
 	for i := 0; i < v.Len(); i++ {
